@@ -152,5 +152,6 @@ def run(chk, db):
     chk.assumptions = ['user-supplied readers/writers are not shared between threads by the caller',
                        'read(2)/write(2)/close(2), memcpy, memset and the iostream objects owned by a reader/writer are '
                        'thread-safe on distinct objects (libc/libstdc++ contract)']
+    facts.gate(chk, db, ['nop/'])
     rules(chk, db)
     report.selftest(chk, rules, 'c19.cpp', {'S1': 4, 'S2': 1, 'S3': 2, 'S4': 2, 'S5': 2})
